@@ -187,9 +187,10 @@ class ConcPart(Part):
             "touched a common path")
 
     def __init__(self, prop, family="obj", mp=False, name=None, weight=1.0, atom=False, fault=False,
-                 crash_setup=False):
+                 crash_setup=False, bystander=False):
         Part.__init__(self, prop)
         self.crash_setup = crash_setup
+        self.bystander = bystander
         self.family = family
         self.mp = mp
         self.weight = weight
@@ -227,6 +228,10 @@ class ConcPart(Part):
             r = random.Random("cfault:%d" % seed)
             prog["fault"] = {"index": r.randrange(0, 60), "errno": r.choice(["EIO", "ENOSPC", "EACCES"]),
                              "persistent": r.choice([False, True, "noremove"])}
+            if self.bystander:
+                prog["bystander"] = True
+            if r.random() < 0.6:
+                prog["fault"]["directed"] = r.randrange(1 << 30)
         if self.atom:
             prog["atom"] = True
             import random
@@ -242,6 +247,19 @@ class ConcPart(Part):
         from . import conc
         if self.prop not in ("C08", "C16") and "followups" not in prog["knobs"]:
             prog["knobs"]["followups"] = "cheap"
+        f = prog.get("fault")
+        if f and f.get("directed") is not None and "preempt" not in prog:
+            # conflict-directed fault placement: run the schedule once without the fault, pick the site among the
+            # fault sites on paths that several tasks touched, then run the SAME schedule again with the fault there
+            scout = dict(prog, scout=True)
+            del scout["fault"]
+            r0 = conc.run_conc(scout)
+            sites = r0.stats.get("shared_fault_sites")
+            if r0.harness_error is None and not r0.violations and sites:
+                prog["fault"] = dict(f, index=sites[f["directed"] % len(sites)])
+                del prog["fault"]["directed"]
+                prog["preempt"] = r0.stats.get("preempt") or {}
+                prog["knobs"] = dict(prog["knobs"], policy="default")
         res = conc.run_conc(prog)
         if "preempt" not in prog and res.stats.get("preempt") is not None and res.violations:
             # make the failing schedule explicit so that replay / shrinking are pure functions of the file
